@@ -103,10 +103,11 @@ def check_eat_data_resets(P, R, rid):
 
     resets = [n for n in g.nodes if is_reset(n)]
     for i, r in enumerate(rets):
-        # on every path into this return the last thing done to the carried state is the reset: predecessor chain
+        # on every path into this return the last thing done to the carried state is the reset: predecessor chain (one statement for all fields, or one each)
         ok = False
         cur = r
-        for _ in range(3):
+        seen_reset = set()
+        for _ in range(4):
             preds = [p for (p, lab) in cur.pred if lab == 'next']
             if len(preds) != 1:
                 break
@@ -114,6 +115,17 @@ def check_eat_data_resets(P, R, rid):
             if cur in resets:
                 ok = True
                 break
+            a_ = cur.ast
+            if cur.kind == 'stmt' and isinstance(a_, ast.Assign):
+                tn_ = {dotted(t) for t in a_.targets}
+                if tn_ & state_fields:
+                    if is_const(a_.value, None) and not (tn_ & seen_reset):
+                        seen_reset |= tn_ & state_fields
+                        if state_fields <= seen_reset:
+                            ok = True
+                            break
+                    else:
+                        break
         R.ob(rid, f, r.ast, ok, text=f'return #{i + 1} `{short(r.ast)}` preceded by self.trest_len = self.trest = None', detail='' if ok else
              'a delimiter was found but the partial-delimiter remainder carried from the previous chunk is not reset: it is applied to '
              'the next part\'s data (a part swallows the following delimiter, or is delivered empty)',
@@ -125,7 +137,32 @@ def check_eat_data_resets(P, R, rid):
         wb = [n for n in g.nodes if n.kind == 'stmt' and isinstance(n.ast, ast.Assign) and len(n.ast.targets) == 1 and dotted(n.ast.targets[0]) == 'self.trest'
               and isinstance(n.ast.value, ast.Name)]
     ok = False
-    if wb:
+    if not wb and has_len:
+        # the same write-back as one assignment per field, the last statements before the function ends
+        fall_ = [p for (p, lab) in g.exit.pred if not (p.kind == 'stmt' and isinstance(p.ast, ast.Return) and p.ast.value is not None and not is_const(p.ast.value, None))]
+        okc = bool(fall_)
+        first_node = None
+        for p in fall_:
+            cur, got = p, {}
+            if cur.kind == 'stmt' and isinstance(cur.ast, ast.Return):
+                pr = [q for (q, lab) in cur.pred if lab == 'next']
+                cur = pr[0] if len(pr) == 1 else None
+            for _ in range(len(state_fields)):
+                if cur is None or cur.kind != 'stmt' or not isinstance(cur.ast, ast.Assign) or len(cur.ast.targets) != 1 or dotted(cur.ast.targets[0]) not in state_fields:
+                    break
+                got[dotted(cur.ast.targets[0])] = src(cur.ast.value)
+                first_node = cur
+                pr = [q for (q, lab) in cur.pred if lab == 'next']
+                cur = pr[0] if len(pr) == 1 else None
+            er_ = eat_data_roles(P)
+            if set(got) != state_fields or any(got[k] != er_[k.split('.')[1]] for k in got):
+                okc = False
+        if okc and first_node is not None:
+            wb = [first_node]
+            ok = True
+    if ok:
+        pass
+    elif wb:
         v = wb[0].ast.value
         order = [dotted(e) for e in wb[0].ast.targets[0].elts] if isinstance(wb[0].ast.targets[0], ast.Tuple) else [dotted(wb[0].ast.targets[0])]
         vals = [src(e) for e in v.elts] if isinstance(v, ast.Tuple) else [src(v)]
@@ -307,6 +344,10 @@ def check_eater_reset(P, R, rid):
     for r in [n for n in walk_shallow(eat.node) if isinstance(n, ast.Return) and not none_ret(n)]:
         if isinstance(r.value, ast.Call) and dotted(r.value.func) == 'self.eat':
             continue
+        if isinstance(r.value, ast.Name) and not eat.rd.is_local(r.value.id):
+            mv_ = eat.module.assigns.get(r.value.id, [])
+            if len(mv_) == 1 and isinstance(mv_[0], ast.Call) and dotted(mv_[0].func) == 'object' and not mv_[0].args:
+                continue          # a module-level marker object, not a position
         rn = g.node_of_stmt(r)[0]
         if s_eat and g.must_pass(g.entry, rn, s_eat):
             R.ob(rid, eat, r, True, text=f'{short(r)}: the eater is reset before a header end is reported')
@@ -936,9 +977,11 @@ def check_end_headers(P, R, consts):
         if isinstance(v, ast.Subscript) and src(v.value) == 'CRLFx2' and isinstance(v.slice, ast.Slice) and v.slice.lower is not None \
                 and src(v.slice.lower).startswith('len('):
             ok, det = True, ''
-        elif isinstance(v, ast.Call) and call_attr(v) == 'get' and isinstance(v.func.value, ast.Name) and v.func.value.id in m.assigns:
+        elif (isinstance(v, ast.Call) and call_attr(v) == 'get' and isinstance(v.func.value, ast.Name) and v.func.value.id in m.assigns) or \
+                (isinstance(v, ast.Subscript) and isinstance(v.value, ast.Name) and v.value.id in m.assigns and not isinstance(v.slice, ast.Slice)):
+            tname_ = v.func.value.id if isinstance(v, ast.Call) else v.value.id
             try:
-                tbl = T.peval(m.assigns[v.func.value.id][0], {k: ast.Constant(value=val) for k, val in consts.items()})
+                tbl = T.peval(m.assigns[tname_][0], {k: ast.Constant(value=val) for k, val in consts.items()})
             except T.CannotEval:
                 tbl = None
             if isinstance(tbl, dict):
